@@ -103,6 +103,7 @@ fn trackers(cli: &Cli, rep: &mut Report) {
         cfg.max_idle = 1 + rng.usize(5);
         cfg.vis.own_use = 0.0;
         cfg.vis.own_collect = 0.0;
+        cfg.constraints = None;
         let w = WorldOpts {
             scenes: 1 + rng.usize(2),
             same_region: false,
